@@ -8,6 +8,7 @@ import (
 	"os"
 	"path/filepath"
 	"strings"
+	"sync"
 
 	"github.com/xujiajun/nutsdb"
 	vos "github.com/xujiajun/nutsdb/verifshim/vos"
@@ -373,8 +374,17 @@ func init() {
 			}
 		}
 		args = append(args, codecJob{Kind: "rootidx", Shard: 0, Of: 2}, codecJob{Kind: "rootidx", Shard: 1, Of: 2}, codecJob{Kind: "bucketmeta", Shard: 0, Of: 1})
-		r.Pool.ParallelCustom("codec", args, func(i int, raw json.RawMessage, ok bool) {
+		var each func(i int, raw json.RawMessage, ok bool)
+		var died []int
+		retry := false
+		each = func(i int, raw json.RawMessage, ok bool) {
 			var o codecOut
+			if (!ok || json.Unmarshal(raw, &o) != nil) && !retry {
+				// many decoders allocating gigabytes side by side (or next to another check) can exhaust
+				// the machine: a dead worker counts only if the job dies again when it runs alone
+				died = append(died, i)
+				return
+			}
 			if !ok || json.Unmarshal(raw, &o) != nil {
 				r.Col.Add(eng.Violation{Prop: "C21", Kind: "worker-died", What: "decoder-crash", Atoms: []string{"decoder-crash"}, Detail: []string{fmt.Sprintf("codec job %+v killed its worker (out of memory or hang while decoding a corrupted record)", args[i])}, Extra: map[string]interface{}{"profile": "codec"}})
 				return
@@ -404,6 +414,18 @@ func init() {
 			for _, v := range o.Viol {
 				r.Col.Add(v)
 			}
+		}
+		var mu sync.Mutex
+		r.Pool.ParallelCustom("codec", args, func(i int, raw json.RawMessage, ok bool) {
+			mu.Lock()
+			defer mu.Unlock()
+			each(i, raw, ok)
 		})
+		retry = true
+		for _, i := range died {
+			raw, ok := r.Pool.Custom("codec", args[i])
+			each(i, raw, ok)
+		}
+		r.Stats.Extra["codec_jobs_rerun_alone"] += len(died)
 	}
 }
